@@ -63,4 +63,28 @@ theorem inDir_zero (d : Dir) : BB.inDir d 0#64 = 0#64 := by
 
 theorem dir_mem_all (d : Dir) : d ∈ Dir.all := by cases d <;> simp [Dir.all]
 
+theorem count_eq_zero_iff (b : BB) : BB.count b = 0 ↔ b = 0#64 := by
+  unfold BB.count
+  constructor
+  · intro h
+    have hnil : BB.toList b = [] := List.eq_nil_of_length_eq_zero h
+    apply ext_mem
+    intro t
+    rw [mem_zero]
+    cases hm : mem b t with
+    | false => rfl
+    | true =>
+      have : t ∈ BB.toList b := (mem_toList b t).2 hm
+      rw [hnil] at this
+      cases this
+  · intro h
+    subst h
+    have : BB.toList 0#64 = [] := by
+      apply List.eq_nil_iff_forall_not_mem.2
+      intro t ht
+      have := (mem_toList 0#64 t).1 ht
+      rw [mem_zero] at this
+      cases this
+    rw [this]; rfl
+
 end Tcheran
